@@ -29,6 +29,8 @@ func TestCheck(t *testing.T) {
 		"the rest, the thorough tier the whole grid. A cell is non-trivial when a response came back and was judged; its class is " +
 		"(family, configured max, advertised, option subset, own OPT, section mix, payload kind, position of the full response " +
 		"relative to the limit, outcome complete/truncated/error).")
+	r.Assume("shared-cloner phase: one dnsmsg.Cloner is the Disposer of all servers of a separate bench and the handler answers from Cloner.Clone of stored messages (bare OPT, empty option list, one EDE option, unpacked bare OPT, no OPT); " +
+		"batches of clients that ask for padding/keep-alive (DoT, TCP, DoH, DoQ) alternate with batches of clients that ask for neither on every transport; reuse of disposed OPT records is measured by pointer identity in the handler")
 	r.Assume("the client's UDP size = the CLASS field of the request's OPT, verbatim (normalize documents reqOpt.UDPSize())")
 	r.Assume("DNSCrypt has no configured maximum (the server passes 65535); its bound is max(512, advertised), compared with the decrypted, unpadded DNS message, which is exact")
 	r.Assume("the plain-HTTP DoH instance (meant to sit behind a TLS terminator) counts as DoH, i.e. as an encrypted transport, for the padding rule")
@@ -72,6 +74,25 @@ func TestCheck(t *testing.T) {
 		e.benches = append(e.benches, b)
 	}
 
+	// The bench with the production wiring: one Cloner is the Disposer of all
+	// servers and the handler answers from its pooled clones.
+	pb, err := tbench.Start(tbench.Config{
+		Handler: h, Disposer: h.pooled.cloner, DNS: tbench.StreamOptions{MaxUDPRespSize: 4096},
+	})
+	if err != nil {
+		r.Sample(map[string]any{"setup_error": err.Error()})
+		r.Inconclusive("cannot start the shared-cloner bench: " + err.Error())
+
+		return
+	}
+	defer func() {
+		if cErr := pb.Close(); cErr != nil {
+			r.Extra("shutdown_error_shared_cloner_bench", cErr.Error())
+		}
+	}()
+	e.benches = append(e.benches, pb)
+	poolPaths := pooledPaths(len(e.benches) - 1)
+
 	var paths []*pathDef
 	for i, cfg := range configuredMaxima {
 		paths = append(paths, &pathDef{name: fmt.Sprintf("udp@%d", cfg), family: famUDP, bench: i, cfg: cfg, workers: 2})
@@ -92,12 +113,12 @@ func TestCheck(t *testing.T) {
 		paths = append(paths, &pathDef{name: "doh-h3-post", family: famDoH, variant: tbench.HTTP3, h3: true, workers: 2})
 	}
 
-	for _, p := range paths {
+	for _, p := range append(append([]*pathDef(nil), paths...), poolPaths...) {
 		if p.family != famDoH {
 			continue
 		}
 
-		c, err := e.benches[0].NewHTTPClient(p.variant)
+		c, err := e.benches[p.bench].NewHTTPClient(p.variant)
 		if err != nil {
 			r.Sample(map[string]any{"setup_error": err.Error()})
 			r.Inconclusive("cannot create the " + string(p.variant) + " client: " + err.Error())
@@ -126,6 +147,22 @@ func TestCheck(t *testing.T) {
 
 		return
 	}
+
+	// The shared-cloner histories run first, while the process is quiet (the
+	// pools are emptied by garbage collections).
+	nA, nB, rounds, err := e.runPooled(poolPaths, len(cells), r.N(12, 60), r.N(60, 200), int64(r.N(200, 1000)))
+	if err != nil {
+		r.Inconclusive("cannot build the shared-cloner cells: " + err.Error())
+
+		return
+	}
+	clones, granted, reused := h.pooled.counts()
+	r.Bucket("shared_cloner:cells_class_A(ask for padding/keep-alive)", int64(nA))
+	r.Bucket("shared_cloner:cells_class_B(ask for neither)", int64(nB))
+	r.Bucket("shared_cloner:handler_clones", clones)
+	r.Bucket("shared_cloner:rounds", int64(rounds))
+	r.Bucket("shared_cloner:clones_handed_out_for_class_A", granted)
+	r.Bucket("shared_cloner:class_B_responses_built_on_an_OPT_disposed_after_class_A", reused)
 
 	e.run(paths, cells)
 
@@ -194,6 +231,11 @@ func TestCheck(t *testing.T) {
 	r.Require("opt_version_checked:server-built-opt:request-version=1", 20)
 	r.Require("opt_version_checked:server-built-opt:request-version=255", 10)
 	r.Require("opt_version_checked:handler-opt=2:request-version=2", 5)
+	r.Require("shared_cloner:class_B_responses_built_on_an_OPT_disposed_after_class_A", int64(r.N(60, 300)))
+	for _, f := range []string{famUDP, famTCP, famDoT, famDoQ, famDoH, famDCUDP, famDCTCP} {
+		r.Require("boundary_group:shared-cloner-B:"+f, int64(r.N(30, 150)))
+	}
+	r.Require("boundary_group:shared-cloner-A:"+famDoT, int64(r.N(100, 500)))
 	r.Require("keepalive_returned:"+famTCP, 5)
 	r.Require("keepalive_returned:"+famDoT, 5)
 	r.Require("padding_added:"+famDoT, 10)
